@@ -178,20 +178,40 @@ def prune_paths_md(root, paths):
     return rec(root, (), 0)
 
 
-def partially_pruned(rng, tree, frac):
-    """The tree with a seeded subset of its ordinary subtrees replaced by level-1 pruned branches (what the author of an
-    inner Merkle proof / update leaves in it)."""
-    cand = [p for p, c, d in subtrees_md(tree) if d == 0 and not c.special and c.mask == 0]
-    return prune_paths_md(tree, [p for p in cand if rng.random() < frac])
+def partially_pruned(rng, tree, frac, base=0):
+    """The tree with a seeded subset of its subtrees replaced by pruned branches, as the author of a Merkle proof /
+    update whose content this tree is would leave it.  `base` = number of Merkle cells between that author's proof
+    cell (exclusive) and this tree; a subtree d Merkle cells below the tree root is pruned at level base+d+1, and only
+    if its own level is lower than that."""
+    cand = [p for p, c, d in subtrees_md(tree) if not (c.special and not is_merkle(c)) and c.mask < (1 << (base + d)) and base + d + 1 <= 3]
+    chosen = set(p for p in cand if rng.random() < frac)
+    chosen = set(p for p in chosen if not any(q != p and p[:len(q)] == q for q in chosen))
+
+    def rec(c, path, d):
+        if path in chosen:
+            return pruned_of(c, base + d + 1)
+        if not any(p[:len(path)] == path for p in chosen):
+            return c
+        nd = d + (1 if is_merkle(c) else 0)
+        return RCell(c.bits, [rec(r, path + (i,), nd) for i, r in enumerate(c.refs)], c.special, strict=False)
+    return rec(tree, (), 0)
 
 
-def random_tree_with_merkle(rng, n):
-    """An ordinary tree that embeds Merkle proof / update cells whose contents are partially pruned."""
+def random_tree_with_merkle(rng, n, nest=1):
+    """An ordinary tree that embeds Merkle proof / update cells whose contents are partially pruned.  With nest=2 the
+    content of an embedded Merkle cell may itself embed Merkle cells (and its author pruned below them at level 2), so
+    that an outer proof over the whole tree reaches level 3 and pruned branches whose masks have gaps (0b110, 0b101)."""
+    def content():
+        k = max(2, n // 2)
+        if nest >= 2 and rng.random() < 0.6:
+            return random_tree_with_merkle(rng, k, nest - 1)
+        return random_tree(rng, k)
+
     def inner():
         if rng.random() < 0.5:
-            return merkle_proof_of(partially_pruned(rng, random_tree(rng, max(2, n // 2)), rng.choice([0.2, 0.5])))
-        return merkle_update_of(partially_pruned(rng, random_tree(rng, max(2, n // 2)), rng.choice([0.2, 0.5, 1.0])),
-                                partially_pruned(rng, random_tree(rng, max(2, n // 2)), rng.choice([0.2, 0.5])))
+            return merkle_proof_of(partially_pruned(rng, content(), rng.choice([0.2, 0.5])))
+        return merkle_update_of(partially_pruned(rng, content(), rng.choice([0.2, 0.5, 1.0])),
+                                partially_pruned(rng, content(), rng.choice([0.2, 0.5])))
     mid = RCell(rbits(rng, rng.choice([0, 9, 200])), (inner(), random_tree(rng, max(1, n // 3))))
     refs = [mid, random_tree(rng, max(1, n // 3))]
     if rng.random() < 0.4:
